@@ -460,6 +460,19 @@ def c01(run, selftest=True):
 
 @plan("C02")
 def c02(run, selftest=True):
+    # the body layer (fields / variants of the element's body, reported when the attribute layer is clean): Body.tla
+    q = run.tier == "quick"
+    gen_body(run)
+    gen_shapes(run)
+    gen_corpus(run, "all")
+    run.build()
+    res = run.tlc("Body", BODY_CFG % ((4, 2) if q else (5, 3)), "body", workers=4)
+    run.require_tlc_ok(res, "Body (all bodies within bounds)")
+    r = run.vh("replay-body", res["out"], binary=VHC, timeout=3000)
+    own = ("accepted a body with failing members", "rejected a body whose members all convert", "failures reported at", "panicked")
+    keep = [m for m in r.get("prop", []) if any(any(o in w for o in own) for w in m.get("why", []))]
+    run.add_replay_result("body", dict(r, prop=keep, prop_mismatch=len(keep)))
+    os.remove(res["out"])
     return recv_plan(run, selftest, ["struct", "enum"], {"leaves"}, "C02 one error per mistake", trace_events=150 if run.tier == "quick" else 4000)
 
 
